@@ -13,7 +13,7 @@ pub fn meta() -> Meta {
     Meta {
         id: "C12",
         level: "exploration",
-        rule: "paired FASTQ read sets through the real SkaDict::new (in-process) against a brute-force count model: genome g of k+2 letters and a variant g' differing in the middle base of the central window, k in {5,9,31,33} (thorough: + 7, 63), both strand modes. Family A (counts): min-count c=1..6 x every multiplicity pair (a,a') in {0,c-1,c,c+1}^2 for the two central k-mers x every split of each multiplicity between file 1 (forward) and file 2 (reverse complement). Family B (quality): c in 1..3, three quality rules x min-qual in {0,1,20,40} x one designated low-quality base (middle, middle-1, first, last of a k-long read; positions 0, h, h+1, k+1 of a (k+2)-long read) with quality in {Q-1,Q,Q+1} on exactly one of the c copies. Family C: N at every position of the long read. Family D: the same through `ska build -f` option parsing (one of the two files with CRLF line ends in two of the four configurations), and a single FASTQ file given as positional argument or as a two-field list line. Family P (k in {5,7,31,33}; thorough + 9, 15, 63): reads holding a k-mer whose arms are reverse complements of each other (X m rc(X), each m; bare, with flanks), c=1..3, totals c-1/c/c+1 split between the strands and the files in every way. Family E (k in {5,33}; thorough + 7, 31, 63): every multiset of up to three reads drawn from all substrings of length k..k+3, both orientations, of a (k+3)-letter genome and of its one-substitution variant (quick: triples from the genome only), all in file 1 or alternating between the files, c=1..3 (the same k-mer met as first window of one read and as rolled window of another, on either strand); and every pair of such reads with one base of quality Q-1 or Q at every position of the first (k<=7; ends and window middles otherwise; quick: k=5 only), middle and strict rule, c=1..2. One larger data set (~2*10^4 distinct k-mers plus singleton error k-mers) bounds the share of below-threshold k-mers that enter. Non-trivial = the model's dictionary is non-empty or a k-mer sits exactly at a threshold.".into(),
+        rule: "paired FASTQ read sets through the real SkaDict::new (in-process) against a brute-force count model: genome g of k+2 letters and a variant g' differing in the middle base of the central window, k in {5,9,31,33} (thorough: + 7, 63), both strand modes. Family A (counts): min-count c=1..6 x every multiplicity pair (a,a') in {0,c-1,c,c+1}^2 for the two central k-mers x every split of each multiplicity between file 1 (forward) and file 2 (reverse complement). Family B (quality): c in 1..3, three quality rules x min-qual in {0,1,20,40} x one designated low-quality base (middle, middle-1, first, last of a k-long read; positions 0, h, h+1, k+1 of a (k+2)-long read) with quality in {Q-1,Q,Q+1} on exactly one of the c copies. Family C: N at every position of the (k+2)-long read, and of a read of 2k+4 letters (k or more valid bases behind the N; also a low-quality base there under the strict rule). Family D: the same through `ska build -f` option parsing (one of the two files with CRLF line ends in two of the four configurations), and a single FASTQ file given as positional argument or as a two-field list line. Family P (k in {5,7,31,33}; thorough + 9, 15, 63): reads holding a k-mer whose arms are reverse complements of each other (X m rc(X), each m; bare, with flanks), c=1..3, totals c-1/c/c+1 split between the strands and the files in every way. Family E (k in {5,33}; thorough + 7, 31, 63): every multiset of up to three reads drawn from all substrings of length k..k+3, both orientations, of a (k+3)-letter genome and of its one-substitution variant (quick: triples from the genome only), all in file 1 or alternating between the files, c=1..3 (the same k-mer met as first window of one read and as rolled window of another, on either strand); and every pair of such reads with one base of quality Q-1 or Q at every position of the first (k<=7; ends and window middles otherwise; quick: k=5 only), middle and strict rule, c=1..2. One larger data set (~2*10^4 distinct k-mers plus singleton error k-mers) bounds the share of below-threshold k-mers that enter. Non-trivial = the model's dictionary is non-empty or a k-mer sits exactly at a threshold.".into(),
         assumptions: vec!["an extra entry would only be acceptable as a counting-filter collision; on these inputs none is expected and any extra is reported".into(), "a sample in which nothing reaches the threshold may be refused".into()],
         exhaustive_when_uncapped: true,
     }
@@ -245,6 +245,30 @@ pub fn run(ctx: &Ctx, rep: &mut Report) {
                     run_case(rep, &Case { k, rc, c, q: 20, rule: QRule::Strict, files: &files }, "C");
                 }
                 rep.corner("N_in_read");
+            }
+            // Family C': a read of 2k+4 letters with N at every position: windows before and after the N, the N met in
+            // the first window or by rolling, k valid bases or more behind it
+            let glong = repeat_free(2 * k + 4, k, 0, ctx.seed + 13);
+            for pos in 0..glong.len() {
+                idx += 1;
+                if !ctx.mine(idx) {
+                    continue;
+                }
+                let mut r: Read = (glong.clone(), hi(glong.len(), 20));
+                r.0[pos] = if pos % 2 == 0 { b'N' } else { b'n' };
+                let clean: Read = (glong.clone(), hi(glong.len(), 20));
+                let files = [vec![r.clone(), clean.clone()], vec![rc_read(&r)]];
+                for c in [2usize, 3] {
+                    for rule in [QRule::Strict, QRule::None] {
+                        run_case(rep, &Case { k, rc, c, q: 20, rule, files: &files }, "C'");
+                    }
+                }
+                // the same with a low-quality base instead of the N (strict rule restarts the window likewise)
+                let mut lowq: Read = (glong.clone(), hi(glong.len(), 20));
+                lowq.1[pos] = 3;
+                let files = [vec![lowq.clone(), clean.clone()], vec![rc_read(&lowq)]];
+                run_case(rep, &Case { k, rc, c: 2, q: 20, rule: QRule::Strict, files: &files }, "C'");
+                rep.corner("N_inside_a_long_read");
             }
         }
         rep.completed.push(format!("k={k} families A, B, C"));
